@@ -178,8 +178,8 @@ Example C03_example_scalar_accessors : exists regs ems st T,
     Some (VTable [(0, VBytes [7; 0; 0; 0]); (2, VBytes [1; 0; 0; 0])]).
 Proof.
   destruct (run init_state [] dx_script) as [[[regs ems] st]|] eqn:E; [|vm_compute in E; discriminate].
-  vm_compute in E. injection E as <- <- <-.
-  eexists _, _, _, _. split; [reflexivity|]. vm_compute. repeat split; reflexivity.
+  exists regs, ems, st, 4. split; [reflexivity|].
+  vm_compute in E. injection E as <- <- <-. vm_compute. repeat split; reflexivity.
 Qed.
 Print Assumptions C03_example_scalar_accessors.
 
